@@ -84,6 +84,12 @@ def gen_hue(rnd):
         s = ("%.6f" % v).rstrip("0").rstrip(".") if e else str(k)
         if s in ("-0", ""):
             s = "0"
+    elif r < 0.31:
+        # a multiple of 360 missed by less than a float can resolve after wrapping (what "0 degrees" looks like after arithmetic):
+        # x % 360 is then 0.0 or exactly 360.0
+        k = rnd.choice([0, 0, 0, 360, -360, 720])
+        tiny = "0." + "0" * rnd.randrange(13, 22) + rnd.choice(["1", "4", "7", "25"])
+        s = ("-" + tiny) if k == 0 and rnd.random() < 0.6 else (tiny if k == 0 else ("%d" % k if rnd.random() < 0.3 else ("%d." % abs(k) + tiny[2:]) if k > 0 else "-" + "%d." % abs(k) + tiny[2:]))
     else:
         s = _digits(rnd, rnd.uniform(-1080, 1440))
     return _num_variant(rnd, s)
